@@ -482,6 +482,19 @@ def setup_pts():
 
 KINDS = ["ii", "ni", "in", "nn"]
 
+
+def _xh_custom(param, tier):
+    from ..xh import run
+
+    return run.run_twins(param, tier)
+
+
+def _xh_replay(param, model):
+    from ..xh import run
+
+    return run.replay_twin(param, model)
+
+
 OBLIGATIONS = [
     Ob("N1_normalise", h_normalise,
        fixed(*[dict(kind=k, form=f) for k in KINDS for f in ("scalar", "tuple1", "mixed")]),
@@ -529,6 +542,9 @@ OBLIGATIONS = [
        descr="scaled_down_roi then scaled_up_roi contains the original and exceeds it by < scale; scaled_down_shape",
        functions=("odc.geo.roi.scaled_down_roi", "odc.geo.roi.scaled_up_roi", "odc.geo.roi.scaled_down_shape", "odc.geo.math.align_up"),
        bounds="scale from grid; slices unbounded", setup=setup),
+    Ob("X_crosshair_twins", None, tiered([], [dict(per_condition_timeout=20)]), custom=_xh_custom, custom_replay=_xh_replay,
+       descr="second engine (thorough tier): CrossHair 0.0.110 on contract twins of the integer kernels (align_down/up, slice_intersect3, roi_intersect, roi_normalise, roi_pad, scaled_down/up_roi); 'Confirmed over all paths' recorded, 'Not confirmed' ignored, a counterexample replayed",
+       functions=("odc.geo.roi.slice_intersect3", "odc.geo.roi.roi_intersect", "odc.geo.roi.roi_pad", "odc.geo.roi.scaled_down_roi", "odc.geo.math.align_up"), bounds="CrossHair's own path exploration, 20 s per condition"),
     Ob("N7_from_points", h_from_points,
        tiered([dict(npts=1, align=0, pad_mode="sym"), dict(npts=2, align=0, pad_mode="sym"), dict(npts=2, align=4, pad_mode="zero"), dict(npts=2, align=16, pad_mode="sym")],
               [dict(npts=n, align=a, pad_mode=p) for n in (1, 2, 3) for a in (0, 4, 16) for p in ("zero", "sym")]),
